@@ -11,6 +11,8 @@ PROP = {
         {"name": "strto", "quick": 3000000, "thorough": 40000000, "maxlen": 96},
         {"name": "qsort", "quick": 400000, "thorough": 6000000, "maxlen": 200},
         {"name": "bsearch", "quick": 1000000, "thorough": 15000000, "maxlen": 160},
+        {"name": "qsort_large", "quick": 8000, "thorough": 150000, "maxlen": 40},
+        {"name": "bsearch_large", "quick": 20000, "thorough": 300000, "maxlen": 40},
     ],
     "fuzz": [{"name": "strto", "secs": 60, "maxlen": 96}, {"name": "qsort", "secs": 30, "maxlen": 200}],
 }
